@@ -9,9 +9,12 @@ import (
 // The end-to-end half of C15: attribution of rows to the table announced for
 // their table id, decoding with the latest table map, mapper calls (engine E2).
 func init() {
-	ExtraHalves = append(ExtraHalves, e2.RunAttribution, e2.RunOrdinalAttribution, e2.RunRestart, e2.RunSchemaChange)
+	ExtraHalves = append(ExtraHalves, e2.RunAttribution, e2.RunOrdinalAttribution, e2.RunRestart, e2.RunSchemaChange, e2.RunTableIDs, e2.RunCountChange, e2.RunCaseTwins)
 	ExtraReplays["history"] = func(in json.RawMessage) (bool, string) { return e2.ReplayHistory("history", in) }
 	ExtraReplays["attribution"] = e2.ReplayAttribution
 	ExtraReplays["restart"] = e2.ReplayRestart
 	ExtraReplays["schema"] = e2.ReplaySchema
+	ExtraReplays["tableid"] = e2.ReplayTableID
+	ExtraReplays["countchange"] = e2.ReplayCountChange
+	ExtraReplays["casetwins"] = e2.ReplayCaseTwins
 }
